@@ -100,6 +100,60 @@ def stepJust (kv : List (String × String)) (body : String) : Option String := d
       showJ (verifyWithVoterSet pick w vs c tb tn pcs)
     pure (bracket (out (pickToward c tb)) (out (pickAway c tb)))
 
+def authSet? (s : String) : Option (Option (List (Nat × Nat))) :=
+  if s == "x" then some none else (pairList? s).map some
+
+def showW (round : Nat) : WRes → String
+  | .errSetId => "err-setid" | .errAuths => "err-auths" | .errVoters => "err-voters"
+  | .inner j => showJ j | .ok sid => s!"ok r={round} s={sid}"
+
+/-- wrap cs=<change block of set 0,1,..> cur=<current set id> as=<auths of set 0>/<set 1>/.. (`k:w,..`, `-` empty,
+    `x` not stored) ib=<imported blk>:<imported number> r=<round> s=<set id the precommits are signed for>
+    off= t= h= c= |precommits      as in `just` lines, numbers are uint32 -/
+def stepWrap (kv : List (String × String)) (body : String) : Option String := do
+  let change ← natList? (← field kv "cs")
+  let cur ← (← field kv "cur").toNat?
+  let auths ← ((← field kv "as").splitOn "/").mapM authSet?
+  let (ib, ibn) ← pair? (← field kv "ib")
+  let round ← (← field kv "r").toNat?
+  let sset ← (← field kv "s").toNat?
+  let par ← natList? (← field kv "t")
+  let has ← natList? (← field kv "h")
+  let (tb, tn) ← pair? (← field kv "c")
+  let pcs ← pres? true 32 body
+  let g : GState := ⟨change, cur, auths⟩
+  let c : Chain := ⟨par, has⟩
+  let tn := tn % 2 ^ 32
+  let unmodelled := match setIdAt g ibn with
+    | some sid => match g.authsAt sid with
+      | some a => match newVoterSet (unitWs a) with
+        | some vs => !consistent 32 vs c pcs
+        | none => false
+      | none => false
+    | none => false
+  if unmodelled then pure "unmodelled" else
+  let a := showW round (wrapper (pickToward c tb) false g ib ibn sset c tb tn pcs)
+  let b := showW round (wrapper (pickAway c tb) false g ib ibn sset c tb tn pcs)
+  let sp := showW round (wrapper (pickAway c tb) true g ib ibn sset c tb tn pcs)
+  if a != b then pure (a ++ "\tspec=" ++ b ++ "\tkf=ghost-ambiguous")
+  else if sp != a then pure (a ++ "\tspec=" ++ sp ++ "\tkf=wrapper-unit-weights")
+  else pure a
+
+def showImp : ImpRes → String
+  | .errVerify => "err-verify" | .errFinalise => "err-fin" | .errJustification => "err-just"
+  | .finalised r s => s!"fin r={r} s={s}" | .stored => "stored"
+
+/-- imp j=<0|1 justification present> g=<ok|err> r=<round> s=<set> ff=<0|1 SetFinalisedHash fails>
+    jf=<0|1 SetJustification fails> -/
+def stepImp (kv : List (String × String)) : Option String := do
+  let j ← (← field kv "j").toNat?
+  let gk ← field kv "g"
+  let r ← (← field kv "r").toNat?
+  let s ← (← field kv "s").toNat?
+  let ff ← (← field kv "ff").toNat?
+  let jf ← (← field kv "jf").toNat?
+  pure (showImp (importData (j == 1) (if gk == "ok" then some (r, s) else none) (ff == 1) (jf == 1)))
+
 def step (line : String) : String :=
   let (hdr, body) := match line.splitOn "|" with
     | [h] => (h, "")
@@ -110,6 +164,8 @@ def step (line : String) : String :=
   -- numbers that disagree with the tree: outside the model; the only claim is that the call returns
   | "vcl" :: rest => if (stepVC (kvs rest) body).isSome then "returns" else "bad-op"
   | "just" :: rest => (stepJust (kvs rest) body).getD "bad-op"
+  | "wrap" :: rest => (stepWrap (kvs rest) body).getD "bad-op"
+  | "imp" :: rest => (stepImp (kvs rest)).getD "bad-op"
   | _ => "bad-op"
 
 def main : IO Unit := runDriver step
